@@ -76,6 +76,7 @@ def runLine (l : String) : String :=
       | "gates" => opGates args
       | "ev" => opEv args
       | "tamper" => opTamper args
+      | "envelope" => opEnvelope args
       | "dispatch-cbor" => opDispatchCbor args
       | "dispatch-json" => opDispatchJson args
       | _ => "bad-op"
